@@ -41,6 +41,10 @@ type Script struct {
 	HeaderAt  int     // client calls Header() before its HeaderAt-th RecvMsg (0 = before the first); -1 = never
 	NHdrOpts  int     // number of grpc.Header call options
 	NTlrOpts  int     // number of grpc.Trailer call options
+	// Spoof (0 = off): before anything else the handler attaches, as ordinary header and trailer metadata,
+	// the keys the HTTP transport itself uses for the outcome of a unary call ("x-grpc-status" saying code
+	// Spoof-1, "x-grpc-details"). Application metadata never changes the outcome the caller sees.
+	Spoof int `json:",omitempty"`
 }
 
 // RecvRes is one client-side RecvMsg result.
@@ -130,6 +134,16 @@ func scriptService(s *Script, o *Obs, mu *sync.Mutex) *Service {
 		SendHeader(metadata.MD) error
 	}
 	runOps := func(ctx context.Context, stream grpc.ServerStream) {
+		if s.Spoof > 0 {
+			md := metadata.Pairs("x-grpc-status", fmt.Sprintf("%d:spoofed by handler metadata", s.Spoof-1), "x-grpc-details", "CgF4EgF5")
+			if stream != nil {
+				stream.SetHeader(md)
+				stream.SetTrailer(md)
+			} else {
+				grpc.SetHeader(ctx, md)
+				grpc.SetTrailer(ctx, md)
+			}
+		}
 		for _, op := range s.HOps {
 			var err error
 			switch op.Op {
